@@ -22,22 +22,24 @@ Agrees(exp, obs) == ValsMatch(exp, obs) \/ (exp = <<NoneVal>> /\ obs = <<>>)
 SameAs(model, obs, keys) == \A k \in keys : Agrees(ObsVals(model, k), ObsVals(obs, k))
 
 ValueClauses(c, hn, env, obs) ==
-    LET a1 == App1(c, hn, env, Good)
-        a2 == App2(c, hn, env, Good)
-        K  == AllKeys(c)
-        ok(k) == \E tp \in BOOLEAN, ur \in BOOLEAN : Agrees(DeclExpanded(a1, a2, c, hn, env, k, tp, ur), ObsVals(obs, k))
+    LET ds == Dicts(c)
+        pt == LookupParts(c, ds, hn, env)                                   \* repaired walk, once
+        pp == LookupParts(c, DictsFx(c, FxOf(TRUE, TRUE)), hn, env)         \* pinned walk, once
+        a1 == pt.a1
+        a2 == pt.a2
+        K  == AllKeysOf(ds)
+        ok(k) == \E tp \in BOOLEAN, ur \in BOOLEAN : Agrees(DeclExpanded(a1, a2, ds, hn, env, k, tp, ur), ObsVals(obs, k))
         explained(k, fx) == \E ur \in BOOLEAN : Agrees(ObsVals(Lookup(c, hn, env, fx, ur), k), ObsVals(obs, k))
         why(k) == IF explained(k, FxOf(TRUE, FALSE)) THEN "P_value:proxycommand_none_overrides_earlier_value_in_block"
                   ELSE IF explained(k, FxOf(FALSE, TRUE)) THEN "P_value:percent_h_expanded_before_hostname"
                   ELSE IF explained(k, FxOf(TRUE, TRUE)) THEN "P_value:none_override_and_percent_h_order"
                   ELSE "P_value:unexplained"
-        stable == \A b \in 1..Len(c) : HasFinal(c[b]) \/ a1[b] = a2[b]
-    IN  (IF stable THEN {<<why(k), k>> : k \in {x \in K : ~ok(x)}}
-                   ELSE {<<"C_ambiguous_match_block_not_judged", "">>})
+    IN  (IF StableFrom(a1, a2, c) THEN {<<why(k), k>> : k \in {x \in K : ~ok(x)}}
+                                  ELSE {<<"C_ambiguous_match_block_not_judged", "">>})
         \cup {<<"P_unexpected_key", k>> : k \in KeysOf(obs) \ K}
-        \cup (IF SameAs(Lookup(c, hn, env, FxOf(TRUE, TRUE), FALSE), obs, K \cup KeysOf(obs)) THEN {}
+        \cup (IF SameAs(ExpandAll(pp.raw, hn, env, FxOf(TRUE, TRUE), FALSE), obs, K \cup KeysOf(obs)) THEN {}
               ELSE {<<"C_differs_from_pinned_walk", "">>})
-        \cup (IF SameAs(Lookup(c, hn, env, Good, FALSE), obs, K \cup KeysOf(obs)) THEN {}
+        \cup (IF SameAs(ExpandAll(pt.raw, hn, env, Good, FALSE), obs, K \cup KeysOf(obs)) THEN {}
               ELSE {<<"C_differs_from_repaired_walk", "">>})
 
 HostnamesClauses(c, gh) ==
@@ -56,6 +58,7 @@ TNext == /\ l <= Len(R.lookups) /\ l' = l + 1 /\ tid' = tid
                         \cup (IF q.raised # "" THEN {<<"P_lookup_raises", q.raised>>}
                               ELSE ValueClauses(R.cfg, q.host, R.env, q.opts))
 TSpec == TInit /\ [][TNext]_tvars
-Report == /\ (bad # {} => PrintT(<<"VERDICT", tid, l - 1, bad>>))
+\* one short line per print (ToString): the run may then use several workers
+Report == /\ (bad # {} => PrintT(<<"VERDICT", ToString(<<tid, l - 1, bad>>)>>))
           /\ (l = Len(R.lookups) + 1 => PrintT(<<"DONE", tid>>))
 =============================================================================
